@@ -1,6 +1,7 @@
 """C20 - the runner leaves its inputs untouched and echoes them (generated call histories on shared card objects)."""
 
 import copy
+import math
 import warnings
 
 import numpy as np
@@ -30,7 +31,7 @@ ASSUMPTIONS = [
 BUDGET = {"quick": {"examples": 2000, "wall": 300}, "thorough": {"examples": 60000, "wall": 2400}}
 MANDATORY = {
     t: ["nontrivial", "op:runner", "op:result", "op:update", "op:run_yadism", "alias:kinematics", "numpy:grid", "numpy:kin",
-        "legacy:absent", "fns:FONLL", "target:name", "grid:unsorted", "rerun", "nan-replacement-path"]
+        "legacy:absent", "fns:FONLL", "target:name", "grid:unsorted", "rerun", "nan-replacement-path", "point-on-matching-scale"]
     for t in ("quick", "thorough")
 }
 SHRINK = {"quick": True, "thorough": True}
@@ -67,8 +68,18 @@ def cases(draw, tier="quick"):
         ob["interpolation_polynomial_degree"], ob["interpolation_is_log"] = 2, True
         ob["observables"] = {name: [{"x": 2e-9, "Q2": 10.0}]}
         meta.update({"name": name, "kind": kind, "heavyness": name.split("_")[1], "scheme": "FFNS", "pto": 2, "tmc": 0, "process": ob["prDIS"], "nan_path": True})
+    pts = ob["observables"][meta["name"]]
+    if pts and not meta.get("nan_path") and draw(st.integers(0, 3)) == 0:
+        # a point on a matching scale as users type it (the decimal literal of (m k)^2, which may differ from the product in the last
+        # bits) or on the floats next to it: nothing may "snap" the caller's number onto the scale
+        m, k = draw(st.sampled_from([("mc", "kcThr"), ("mb", "kbThr"), ("mt", "ktThr")]))
+        thr = float(np.square(th[m] * th[k]))
+        q2 = draw(st.sampled_from([float(f"{thr:.10g}"), thr, math.nextafter(thr, 0.0), math.nextafter(thr, math.inf)]))
+        if q2 > 0.5:
+            pts[draw(st.integers(0, len(pts) - 1))]["Q2"] = q2
+            meta["on_matching_scale"] = True
     # legacy / optional keys: present with a value, or absent
-    th["PTODIS"] = draw(st.sampled_from([None, th["PTO"]]))
+    th["PTODIS"] = draw(st.sampled_from([None, th["PTO"], th["PTO"], th["PTO"] if meta.get("nan_path") else (th["PTO"] + 1) % 3]))
     drop = draw(st.lists(st.sampled_from(LEGACY), unique=True, max_size=4))
     if not th["FNS"].startswith("FONLL") and "FONLLParts" not in drop and draw(st.booleans()):
         th["FONLLParts"] = draw(st.sampled_from([None, "full"]))
@@ -158,6 +169,8 @@ def check_case(case):
     v.label("target:name" if isinstance(ob["TargetDIS"], str) else "target:ZA")
     if case["meta"].get("nan_path"):
         v.label("nan-replacement-path")
+    if case["meta"].get("on_matching_scale"):
+        v.label("point-on-matching-scale")
     if any(k not in th for k in LEGACY) or th.get("PTODIS") is None:
         v.label("legacy:absent")
     if case["second"] and case["share_kin"] and not case["second"].startswith("XS"):
